@@ -29,6 +29,11 @@ META = {
             'the sequence leg constructs the messages of a sequence 0-8 ms apart inside one clock second (some across a second boundary) with 1-3 time tokens '
             '(sub-second fields, process/boot, conditions, format specs) in the pattern, and every message (sequence or not) is formatted a second time by the same '
             'object (up to 20 ms later) and by a fresh one: the text may not change; some messages wait 20 ms between construction and format().',
+    'front_end': 'round 8: about 30% of the single cases and of the sequences obtain the formatter object through SimplePipeline().format(pattern) '
+                 '(a copy of the message is passed through the pipeline, a trailing .handler() captures formattedMessage()); expected results are those of the same model '
+                 '(C12_front_end_is_transparent / C12_front_end_object_is_the_direct_object; tools/s2c/pattern.py translates the body of SimplePipeline::format(const QString &) '
+                 'and formatByQt()); the harness also formats the same LogMessage with a directly constructed PatternFormatter(pattern) and both texts must agree; '
+                 'the name "default" is expected to give DefaultMessagePattern (C12_front_end_default_name); "qt"/"pretty" (other formatter classes) are outside C12',
     'note': 'Trusted: Coq 8.16.1 kernel (vm_compute only on closed examples / witnesses), no axioms; tools/s2c/pattern.py '
             '(regex translation of patternformatter.cpp and logmessage.h: placeholder names, type names, alignment '
             'characters, suffix/fill, mid() offsets, in-band marker vs out-of-band counter, statement shapes of the '
@@ -741,6 +746,8 @@ def shrink_sequence(seq, impl, model):
     cur = vlib.shrink_list(list(seq), bad, max_steps=60)
     pat = ''.join(vlib.shrink_list(list(cur[0]['pat']), lambda ch: bad([dict(c, pat=''.join(ch)) for c in cur]), max_steps=200))
     cur = [dict(c, pat=pat) for c in cur]
+    if any(c.get('via') for c in cur) and bad([dict(c, via=None) for c in cur]):
+        cur = [dict(c, via=None) for c in cur]     # the directly constructed object shows it as well: the front end is not part of the failing input
     for j in range(len(cur)):
         def with_j(**kw):
             return cur[:j] + [dict(cur[j], **kw)] + cur[j + 1:]
@@ -834,12 +841,14 @@ def sequence_leg(chk, g, seqs, impl, model, ncorpus=0):
             small = renumber(seqs[si]); rs = rss[si]; bad = stateful_members(rs)
         j = bad[0]
         r = rs[j]
-        chk.fail('format() is not a function of (pattern, message): ONE PatternFormatter object with pattern %r formats %d message(s) in a row; '
+        chk.fail('format() is not a function of (pattern, message): ONE PatternFormatter object%s with pattern %r formats %d message(s) in a row; '
                  'call %d (message %r, attributes %r, time stamp %s) returns %r, while a fresh formatter object gives %r for the same message '
                  '(model %r, documented concatenation %r; the extracted oracle %s the returned text); earlier calls had attributes %r and time stamps %r'
-                 % (small[0]['pat'], len(small), j + 1, small[j]['msg'], small[j]['attrs'], r.get('stamp'), unhx(r['impl']), unhx(r['fresh']), unhx(r.get('model', '')),
+                 % (' (obtained through SimplePipeline().format(pattern); the "fresh" one is constructed directly)' if is_fluent(small[0]) else '',
+                    small[0]['pat'], len(small), j + 1, small[j]['msg'], small[j]['attrs'], r.get('stamp'), unhx(r['impl']), unhx(r['fresh']), unhx(r.get('model', '')),
                     unhx(r.get('full', '')), 'accepts' if r.get('oracle') else 'REJECTS', [c['attrs'] for c in small[:j]], [x.get('stamp') for x in rs[:j]]),
                  {'kind': 'sequence', 'pattern': small[0]['pat'], 'sequence': small, 'failing_call': j + 1, 'calls': describe_sequence(small, rs),
+                  'formatter_object_obtained_by': via_text(small[0]),
                   'got': unhx(r['impl']), 'fresh_formatter_object_gives': unhx(r['fresh']), 'model_output': unhx(r.get('model', '')),
                   'oracle_holds_on_got': r.get('oracle'), 'sequences_with_history_dependent_results': len(stateful),
                   'has_zero_width_space': ZW in small[0]['pat'] + ''.join((c['msg'] or '') for c in small)}, kind='sequence')
@@ -870,6 +879,7 @@ def sequence_leg(chk, g, seqs, impl, model, ncorpus=0):
                   'with the kept one), e.g. pattern %r call %d: implementation %r model %r' % (len(differs), seqs[si][0]['pat'], j + 1, unhx(r['impl']), unhx(r['model'])),
                   {'kind': 'correspondence', 'sequence': seqs[si], 'failing_call': j + 1, 'calls': describe_sequence(seqs[si], rss[si])})
     return {'sequences': len(seqs), 'calls': nmsg, 'corpus_sequences': ncorpus,
+            'kept_object_obtained_via': {'direct': sum(1 for sq in seqs if not is_fluent(sq[0])), 'fluent SimplePipeline().format(pattern)': sum(1 for sq in seqs if is_fluent(sq[0]))},
             'rule': 'one PatternFormatter object per sequence, k messages with the same pattern; the sets of present attributes differ between the '
                     'messages (types and texts in half of the sequences); 55% of the patterns: adjacent optional attributes with remove-after '
                     'counts (some under a type condition) followed by a literal longer than the counts; 22%: 1-3 %{time <format>} tokens (with and '
@@ -925,7 +935,7 @@ def run():
     thorough = chk.tier == 'thorough'
     g = Gen(chk.rng, slow_budget=400 if thorough else 70, boundary_budget=20 if thorough else 3)
     corpus = load_corpus()
-    cases = list(corpus) + g.fixed_time_cases() + [g.case() for _ in range(100000 if thorough else 15000)]
+    cases = list(corpus) + g.fixed_time_cases() + g.fixed_front_cases() + [g.case() for _ in range(100000 if thorough else 15000)]
     # the same cases once more under another application-wide default QLocale (the model has no locale: model = implementation under each)
     nplain = len(cases)
     cases += g.locale_cases(cases, 2000 if thorough else 400)
@@ -959,6 +969,27 @@ def run():
         for i in sorted(changing, key=lambda i: len(cases[i]['pat']))[:3]:
             if report_reformat(chk, cases[i], impl, model, 'single-message leg', len(changing)):
                 break
+    # round 8: an object obtained through the fluent front end must give what the directly constructed one gives (same LogMessage object)
+    front_bad = [i for i, r in enumerate(res) if i not in skip and front_differs(r)]
+    if front_bad and not chk.failing:
+        i = min(front_bad, key=lambda i: len(cases[i]['pat']) + len(cases[i]['msg'] or ''))
+
+        def bad_front(c):
+            return front_differs(evaluate([c], impl, model)[0])
+        keep_via = dict(cases[i])
+        small = shrink(keep_via, impl, model, lambda c: c.get('via') == 'f' and bad_front(c))
+        r = evaluate([small], impl, model)[0]
+        if not front_differs(r):
+            small = cases[i]; r = res[i]
+        chk.fail('the fluent front end is not transparent: SimplePipeline().format(%r) formats message %r (type %d, attributes %r) as %r, while PatternFormatter(%r) '
+                 'constructed directly gives %r for the same LogMessage object (model %r, documented %r; the extracted oracle %s the front end\'s text)'
+                 % (small['pat'], small['msg'], small['type'], small['attrs'], unhx(r['impl']), small['pat'], unhx(r['fresh']), unhx(r.get('model', '')),
+                    unhx(r.get('full', '')), 'accepts' if r.get('oracle') else 'REJECTS'),
+                 dict(describe(small, r), kind='front_end', cases_where_front_end_and_direct_object_differ=len(front_bad),
+                      front_end_output=unhx(r['impl']), directly_constructed_output=unhx(r['fresh']), oracle_holds_on_front_end_output=r.get('oracle')),
+                 kind='front_end')
+    chk.cov['front_end_vs_direct_object_differences'] = len(front_bad)
+
     # property falsified on the implementation: report one input per class (verbatim = no removal requested)
     def null_wrong(r):
         return r['impl'].endswith('/null') != r['null_expected']
@@ -990,6 +1021,7 @@ def run():
         ctx = ''.join([' file %r' % small['file'] if 'file' in small['pat'] else '',
                        ' (message pre-formatted with %r by an earlier formatter)' % small['prefmt'] if small.get('prefmt') is not None else '',
                        ' (second pass: the formatter had already processed this message)' if small.get('twice') else '',
+                       ' [formatter obtained through SimplePipeline().format(pattern)]' if is_fluent(small) else '',
                        ' under QLocale::setDefault(QLocale("%s")) - the documented text does not depend on the default locale' % small['locale'] if small.get('locale') else ''])
         chk.fail('%s: pattern %r message %r%s -> %r, documented %r' % (what, small['pat'], small['msg'], ctx, unhx(r['impl']), unhx(r['full'])),
                  dict(describe(small, r), kind=cls, falsified_cases=len(sel), model_disagrees=r['impl'] != r['model']), kind=cls)
@@ -1017,6 +1049,8 @@ def run():
         'oracle_falsified': len(falsified), 'crashed': len(crashed), 'env_missing_skipped': len(env_missing),
         'same_message_formatted_again_gave_another_text': len(changing),
         'cases_waiting_before_format_or_formatted_again_later': sum(1 for c in cases if c.get('delay') or c.get('again')),
+        'formatter_object_obtained_via': {'direct': sum(1 for c in cases if not is_fluent(c)), 'fluent SimplePipeline().format(pattern)': sum(1 for c in cases if is_fluent(c)),
+                                          'fluent, name "default"': sum(1 for c in cases if is_fluent(c) and c['pat'] == 'default')},
         'cases_under_another_default_locale': {l: sum(1 for c in cases if c.get('locale') == l) for l in LOCALES},
         'default_locale_cases_falsified_or_differing': sum(1 for i in set(falsified) | set(differs) if cases[i].get('locale')),
         'cases_with_time_placeholder': sum(1 for c in cases if '%{time' in c['pat']),
@@ -1076,6 +1110,7 @@ def replay(path):
         sq = renumber(r['sequence'])
         rs = eval_sequences([sq], impl, model)[0]
         print('pattern        %r   (ONE PatternFormatter object, %d calls)' % (sq[0]['pat'], len(sq)))
+        print('kept object    %s' % via_text(sq[0]))
         for d in describe_sequence(sq, rs):
             print('call %d: message %r type=%d attributes=%r  (constructed %s ms after the previous call, time stamp %s; format() %d ms after construction)'
                   % (d['call'], d['message'], d['type'], d['attributes'], d['constructed_ms_after_previous_call'], d['message_time_stamp'], d['ms_between_construction_and_format']))
@@ -1092,6 +1127,7 @@ def replay(path):
     model = vlib.build_model('pattern'); impl = vlib.build_harness('pattern')
     x = evaluate([c], impl, model)[0]
     print('pattern        %r' % c['pat'])
+    print('object         %s%s' % (via_text(c), ('  (the name "default" stands for %r)' % model_pat(c)) if model_pat(c) != c['pat'] else ''))
     print('message        %r  type=%d attributes=%r file=%r category=%r' % (c['msg'], c['type'], c['attrs'], c.get('file'), c.get('cat')))
     if c.get('locale'):
         print('default locale QLocale::setDefault(QLocale("%s")) while the formatter works' % c['locale'])
@@ -1103,7 +1139,8 @@ def replay(path):
     print('tokens         %s' % vlib.run_lines(model, [ml], ['tokens'])[1][0])
     print('message time   %s (format() called %d ms after the message was constructed)' % (x.get('stamp'), c.get('delay', 0)))
     print('implementation %r' % unhx(x['impl']))
-    for what, key in (('same object, same message again %d ms later' % c.get('again', 0), 'again'), ('fresh object, same message, after that', 'fresh')):
+    for what, key in (('same object, same message again %d ms later' % c.get('again', 0), 'again'),
+                      (('directly constructed PatternFormatter(pattern)' if is_fluent(c) else 'fresh object') + ', same message, after that', 'fresh')):
         if x.get(key, x['impl']) != x['impl']:
             print('   %s: %r   <-- DIFFERS: the text is not a function of the message' % (what, unhx(x[key])))
     print('model          %r' % unhx(x['model']))
